@@ -254,6 +254,21 @@ func cmdCheck(args []string) int {
 	for _, ld := range pf.Loads {
 		prog, err := loadProgram(filepath.Join(repoRoot, ld.Dir), ld.Patterns)
 		if err != nil {
+			if strings.HasPrefix(err.Error(), "type error (contract or code)") {
+				// the code alone type-checks (first load) but the contracts no longer do against it:
+				// the code under contract changed in a way its contract cannot follow (a local named
+				// in an invariant is gone, a signature changed). A violation, not a tool error.
+				dir := filepath.Join(verifRoot, "replays", pf.ID)
+				if run.scratch {
+					dir = filepath.Join(repoRoot, ".govc-smt", pf.ID, "replays")
+				}
+				os.MkdirAll(dir, 0o755)
+				rp := filepath.Join(dir, "contract_typecheck.txt")
+				os.WriteFile(rp, []byte("obligation: the contracts of this property type-check against the code they are written for\n\nThe code type-checks on its own; with the contract clauses added it does not:\n\n"+err.Error()+"\n"), 0o644)
+				fmt.Printf("VIOLATION property=%s replay=%s obligation=%s#contract-typecheck result=contract-does-not-fit-code no-failing-input-found\n", pf.ID, rp, ld.Dir)
+				run.writeEvidence(time.Since(t0).Seconds(), "contracts do not type-check against the code: "+err.Error())
+				return 1
+			}
 			fmt.Println("ERROR: load:", err)
 			run.writeEvidence(time.Since(t0).Seconds(), "load/contract error: "+err.Error())
 			return 2
